@@ -133,6 +133,79 @@ def has_pct(line):
     return any(f != "-" and b"%" in bytes.fromhex(f) for f in fields)
 
 
+def fmt_branches(line, b):
+    """which token kinds of the substitution an input line exercises (coverage report only)"""
+    def hit(k):
+        b[k] = b.get(k, 0) + 1
+    w = line.split()
+    if w[0] == "fmt":
+        mem = bytes.fromhex(w[4]) if w[4] != "-" else b""
+        a = cstr(mem)
+        if a is None:
+            hit("fmt:no terminator in the readable memory")
+            return
+        args = [a]
+        if len(mem) > len(a) + 1:
+            hit("fmt:memory behind the terminator")
+    else:
+        args = [bytes.fromhex(x) if x != "-" else b"" for x in w[6:]]
+        hit("args:%d arguments" % min(len(args), 4))
+    for a in args:
+        if a == b"":
+            hit("token:empty argument")
+        i, lit = 0, False
+        while i < len(a):
+            if a[i] == 0x25:
+                if i + 1 >= len(a):
+                    hit("token:lone trailing %")
+                    break
+                hit({0x68: "token:%h", 0x75: "token:%u", 0x6e: "token:%n", 0x25: "token:%%"}.get(a[i + 1], "token:unknown %x"))
+                i += 2
+            else:
+                lit = True
+                i += 1
+        if lit:
+            hit("token:literal text")
+        if b"%%h" in a or b"%%u" in a or b"%%n" in a:
+            hit("token:%% directly before h/u/n")
+
+
+def reg_branches(c, m, s, b):
+    """which branches of the word splitter / registry / defaults chain a registry case exercises"""
+    def hit(k):
+        b[k] = b.get(k, 0) + 1
+    for w in c["words"]:
+        if w.count("[") >= 2:
+            hit("word:two bracket pairs")
+        if "::" in w:
+            hit("word:'::' (no type)")
+        if "@" in w and ":" in w and w.index(":") > w.index("@"):
+            hit("word:':' behind '@' (malformed)")
+        elif "@" in w and ":" in w:
+            hit("word:type:user@hosts")
+        elif "@" in w:
+            hit("word:user@hosts")
+        elif ":" in w:
+            hit("word:type:hosts")
+        else:
+            hit("word:plain")
+        if "," in w:
+            hit("word:comma inside brackets")
+    hit("default transport from " + ("-R" if c["R"] is not None else "PDSH_RCMD_TYPE" if c["envtype"] is not None else "rank list"))
+    if c["R"] is not None and c["envtype"] is not None:
+        hit("-R over PDSH_RCMD_TYPE")
+    if c["l"] is not None:
+        hit("-l given")
+    if c["argv"].count("-l") > 1:
+        hit("-l given twice")
+    if c["argv"].count("-w") > 1:
+        hit("several -w")
+    if m == "fatal":
+        hit("run refused (malformed word / unknown module)")
+    elif any(x.startswith("~|") for x in m.split()[1:]):
+        hit("host without any transport (cancelled)")
+
+
 def exec_view(ans):
     """what execvp sees of an `ok A0 A1 ...` answer: the array up to the first NULL"""
     out = []
@@ -185,6 +258,8 @@ def part_a(ctx, cov, dist, rng, only=None):
         for c, a, m, s in zip(cases, ans, mlines, slines):
             cov["evaluations"] += 1
             dist["fmt" if c.startswith("fmt") else "args"] += 1
+            if exe == exes[0][0]:
+                fmt_branches(c, dist["branches"])
             if a != m:
                 ctx.disagreement("format model vs pipecmd.c (%s)" % name, "`%s`: impl `%s` model `%s`" % (c[:200], a[:200], m[:200]),
                                  {"line": c})
@@ -424,6 +499,7 @@ def part_c(ctx, cov, dist, rng, repo, only=None):
     for (c, r, line, targets), m, s in zip(recs, ml, sl):
         cov["evaluations"] += 1
         dist["reg"] += 1
+        reg_branches(c, m, s, dist["branches"])
         log = [l.split() for l in r["log"] if l.startswith("rcmd ")]
         log.sort(key=lambda w: int(w[6]))
         obs = "ok" + "".join(" %s|%s|%s|%s" % (hx(w[2]), w[3], w[5], w[6]) for w in log)
@@ -794,7 +870,8 @@ def run(ctx):
                    "malformed words, unknown types, with 3-6 fake transports loaded; (d) pdsh -R rsh against a scripted "
                    "peer on loopback recording the request bytes; non-trivial = argument containing "
                    "'%' / command line with two annotated words or an annotated word over a repeated host; distinct by text"}
-    dist = {"fmt": 0, "args": 0, "cli": 0, "reg": 0, "reg_fatal": 0, "reg_nodomain": 0, "nodomain": 0, "offenders": {}}
+    dist = {"fmt": 0, "args": 0, "cli": 0, "reg": 0, "reg_fatal": 0, "reg_nodomain": 0, "nodomain": 0, "offenders": {},
+            "branches": {}}
     if getattr(ctx, "replay", None):
         ra, rb, rc_, rd = replay_items(ctx)
         cov["rule"] = "replay of %s: exactly the recorded case(s)" % ctx.replay
